@@ -69,6 +69,106 @@ example :
     (runOpsS (fun _ => env) c [.key 44 0]).commitBuf = [47, 0xef, 0xbc, 0x8c] := by
   decide
 
+/-- **C02 for schemas with a key binder.**  `key_binder` is a processor of the model (`Proc.keyBinder`: binding lookup on the
+exact keycode + modifier pair, the bindings of a key sorted by condition with a later one of the same condition first,
+conditions always / composing / has_menu (off in ascii_mode) / paging, ReinterpretPagingKey with `last_key_`, the actions
+send / send_sequence / toggle / set_option / unset_option with the radio groups of `switches:`).  A redirected key goes
+through `ConcreteEngine::ProcessKey` again (processors and post-processor) with the binder disabled.  A binding may change
+`full_shape` itself, so each call runs in the environment of the value the option has after the binder's decision
+(`runOpsK`, Session/Shape.lean).  If both recomposition functions satisfy `ComposeSpec`, every finite API history from a
+fresh session leaves a well-formed view — whatever the binding list, the switches and the processor list. -/
+theorem wellformed_reachable_keybinder (envOf : Bool → Env) (hps : ∀ b, 0 < (envOf b).pageSize)
+    (hrc : ∀ b, ComposeSpec (envOf b).recompose) (c0 : Ctx) (h0 : Fresh c0) (ops : List Op) (b : Bool) :
+    (view (envOf b) (runOpsK envOf c0 ops)).WellFormed :=
+  view_wf (hps b) (runOpsK_inv hrc ops (fresh_inv h0))
+
+/-- **the same with the hypothesis discharged** for the Compose with the punctuation components (`composeP`: any mapping, any
+translation oracle, any filter) — the configuration of the synthetic schema `vs_kb`; with an empty mapping it is the
+Compose of a schema without punctuator (`vs_kbf`). -/
+theorem wellformed_reachable_keybinder_punct (envOf : Bool → Env) (hps : ∀ b, 0 < (envOf b).pageSize) (cfg : Bool → PSegCfg)
+    (henv : ∀ b, (envOf b).recompose = composeP (cfg b)) (c0 : Ctx) (h0 : Fresh c0) (ops : List Op) (b : Bool) :
+    (view (envOf b) (runOpsK envOf c0 ops)).WellFormed :=
+  wellformed_reachable_keybinder envOf hps (fun b => by rw [henv b]; exact composeP_spec (cfg b)) c0 h0 ops b
+
+/-- **C02 for schemas with an ascii composer, for every timing.**  `ascii_composer` is a processor of the model
+(`Proc.asciiComposer`: the switch keys Shift_L / Shift_R / Control_L / Control_R / Eisu_toggle / Caps_Lock with the styles
+inline_ascii, commit_text, commit_code, clear; the press / release logic with `shift_key_pressed_`, `ctrl_key_pressed_`,
+`toggle_with_caps_` and the 500 ms deadline; good_old_caps_lock; letters typed while Caps Lock is on; inline editing and
+direct commit in ascii_mode; the temporary inline mode that ends with the composition).  The clock the deadline is measured
+on is a parameter: a timed history says how many milliseconds pass before each call.  For EVERY such history from a fresh
+session — any delays, any switch-key configuration, with or without a key binder behind the ascii composer — the view is
+well-formed. -/
+theorem wellformed_reachable_timed (envOf : Bool → Env) (hps : ∀ b, 0 < (envOf b).pageSize)
+    (hrc : ∀ b, ComposeSpec (envOf b).recompose) (c0 : Ctx) (h0 : Fresh c0) (ops : List (Nat × Op)) (b : Bool) :
+    (view (envOf b) (runOpsT envOf c0 ops)).WellFormed :=
+  view_wf (hps b) (runOpsT_inv hrc ops (fresh_inv h0))
+
+/-- non-vacuity: Shift_L is `inline_ascii`.  `a`, then Shift_L tapped within the deadline: ascii_mode goes on and `1` is
+added to the composition instead of selecting; Return (fluid editor: commit_composition) commits `A1` and the temporary mode
+ends with the composition.  The same tap released 600 ms after the press changes nothing: `1` selects the first candidate. -/
+example :
+    let cfg : PSegCfg := { alphabet := [97], initials := [97], finals := [], delimiters := [],
+                           translate := fun _ g => if g.tags.abc then [Cand.mk [65] [] [] g.start g.stop true] else [] }
+    let env : Env := { pageSize := 5, alphabet := [97], initials := [97],
+                       processors := [.asciiComposer, .speller, .selector, .navigator, .fluidEditor],
+                       asciiKeys := [(xkShiftL, .inline)], recompose := composeP cfg }
+    let tap (ms : Nat) : List (Nat × Op) := [(0, .key 97 0), (0, .key xkShiftL 0), (ms, .key xkShiftL (kRelease + kShift)), (0, .key 49 0)]
+    let c1 := runOpsT (fun _ => env) {} (tap 100)
+    let c2 := runOpsT (fun _ => env) c1 [(0, .key 0xff0d 0)]
+    let c3 := runOpsT (fun _ => env) {} (tap 600)
+    c1.input = [97, 49] ∧ c1.getOption "ascii_mode" = true ∧ c1.acInline = true ∧
+    c2.commitBuf = [65, 49] ∧ c2.isComposing = false ∧ c2.getOption "ascii_mode" = false ∧ c2.acInline = false ∧
+    c3.input = [97] ∧ c3.getOption "ascii_mode" = false ∧ (c3.comp.segs.map (·.status)) = [.confirmed, .void] := by
+  decide
+
+/-- **why the re-entrant ProcessKey needs no fuel.**  `KeyBinder::redirecting_` is set exactly around the loop of
+PerformKeyBinding and makes ProcessKeyEvent return kNoop before it looks at anything: the chain a redirected key runs
+through is the schema's chain with the key binder taken out — a target that is itself bound is not redirected again, and
+the nesting is one level deep whatever the bindings. -/
+theorem keybinder_nested_chain (env : Env) (k : Key) (ps : List Proc) (c : Ctx) :
+    chainInner env k ps c = chain env k (ps.filter (· != .keyBinder)) c := by
+  induction ps generalizing c with
+  | nil => rfl
+  | cons p ps ih =>
+    cases p <;> simp only [chainInner, procRunInner, List.filter_cons, bne_iff_ne, ne_eq, reduceCtorEq, not_false_eq_true,
+      not_true_eq_false, if_true, if_false, chain, procRun, ih]
+
+/-- a key without bindings, pressed when the last key was not a period, passes the key binder unchanged except for
+`last_key_` (which becomes the key's code if it has no modifier, 0 if it has — and 0 for a period after a comma) -/
+theorem keybinder_unbound_noop (env : Env) (reent : Key → Ctx → Ctx × Bool) (k : Key) (c : Ctx)
+    (hk : kbBindingsFor env.bindings k = []) (hlast : c.kbLastKey ≠ 46) (hrel : k.release = false) :
+    kbProcess reent env k c =
+      (if env.bindings = [] then c else { c with kbLastKey := if kbCh k = 46 ∧ c.kbLastKey = 44 then 0 else kbCh k }, .noop) := by
+  unfold kbProcess
+  by_cases hb : env.bindings = []
+  · simp [hb]
+  · have hl : (c.kbLastKey == 46) = false := by simpa using hlast
+    have hl' : (decide (c.kbLastKey = 46)) = false := by simpa using hlast
+    simp only [hb, if_false, kbReinterpret, hrel, Bool.false_eq_true, hl', Bool.false_or, Bool.false_and, kbFind, hk,
+      List.find?_nil]
+    by_cases h44 : c.kbLastKey = 44 <;> by_cases hch : kbCh k = 46 <;> simp [h44, hch]
+
+/-- non-vacuity: the key binder at work (bindings of the stock configuration).  `a` opens a menu of 7 candidates, the period
+pages down (has_menu → Page_Down through the nested chain: the selector tags the segment `paging`), the comma now pages
+back (paging → Page_Up), Control+n moves the highlight (composing → Down); then `a`, period, `b`: the letter after the
+period puts the period into the input after all (ReinterpretPagingKey) — input `a.b` -/
+example :
+    let cands : List Cand := (List.range 7).map (fun i => Cand.mk [65 + UInt8.ofNat i] [] [] 0 1 true)
+    let cfg : PSegCfg := { alphabet := [97, 98], initials := [97, 98], finals := [], delimiters := [],
+                           translate := fun inp g => if g.tags.abc && inp = [97] then cands else [] }
+    let env : Env := { pageSize := 3, alphabet := [97, 98], initials := [97, 98],
+                       processors := [.keyBinder, .speller, .selector, .navigator, .expressEditor],
+                       bindings := [⟨.hasMenu, 46, 0, .send [(0xff56, 0)]⟩, ⟨.paging, 44, 0, .send [(0xff55, 0)]⟩,
+                                    ⟨.composing, 110, 4, .send [(0xff54, 0)]⟩],
+                       recompose := composeP cfg }
+    let c1 := runOpsK (fun _ => env) {} [.key 97 0, .key 46 0]
+    let c2 := runOpsK (fun _ => env) c1 [.key 44 0, .key 110 4]
+    (view env c1).menu.map (fun m => (m.pageNo, m.highlighted)) = some (1, 0) ∧
+    (view env c2).menu.map (fun m => (m.pageNo, m.highlighted)) = some (0, 1) ∧
+    (runOpsK (fun _ => env) {} [.key 97 0, .key 46 0, .key 98 0]).input = [97, 46, 98] ∧
+    (runOpsK (fun _ => env) {} [.key 44 0]).isComposing = false := by
+  decide
+
 /-- the page number reported is the one containing the highlighted candidate, and the highlighted
 entry of the page is the selected candidate of the last segment -/
 theorem page_contains_highlight (env : Env) (hps : 0 < env.pageSize) (c : Ctx) (m : MenuView)
